@@ -350,7 +350,14 @@ pub fn gen_wops(rng: &mut Rng, word: Wd, nops: usize, allow_flush: bool) -> Vec<
                     3 => (space + wbits - 1) as u64,
                     4 => (space + wbits) as u64,
                     5 => (space + rng.usize_range(1, 4) * wbits).saturating_sub(rng.usize_range(0, 2)) as u64,
-                    6 => rng.below(5 * wbits as u64 + 3),
+                    6 => {
+                        if rng.chance(1, 8) {
+                            // a long zero run: dozens of words
+                            rng.below(40 * wbits as u64).min(3000)
+                        } else {
+                            rng.below(5 * wbits as u64 + 3)
+                        }
+                    }
                     _ => rng.below(2 * wbits as u64 + 2),
                 };
                 bits += x as usize + 1;
